@@ -469,6 +469,10 @@ class ExprMixin:
             # list + list allocates a new list
             ta, ka = self.as_seq(st, a)
             tb, kb = self.as_seq(st, b)
+            if getattr(b, "static_items", None) == [] and elem_sort(kb) != elem_sort(ka):
+                tb = seq_empty(f"(Seq {elem_sort(ka)})")          # an empty list literal takes the other side's kind
+            elif getattr(a, "static_items", None) == [] and elem_sort(kb) != elem_sort(ka):
+                ta, ka = seq_empty(f"(Seq {elem_sort(kb)})"), kb
             s2, nl = self.new_list(st, ka, seq_concat(ta, tb))
             return k(s2, nl)
         if isinstance(op, (ast.Div,)):
